@@ -36,6 +36,14 @@ CLAIMS = {
   text="client_thread modelled as a total function of the client's byte stream and cut point: every stream ends in a prefix of a well-formed frame sequence or Closed with the client count restored; the daemon survives every session list given SIGPIPE ignored and verification before execution (both facts regenerated from the source / the running daemon); frame codec round trip; 137 malformed/abandoned live sessions compared reply-for-reply with the extracted model.",
   note="Execution is an oracle (oracle_safe stands for C13); a peer that never closes and malloc failure are not modelled.",
   technique="Coq proof over a total handler model + generated protocol/AST/signal facts + live malformed-session correspondence", design="DESIGN.md 5/C18"),
+ 'C19': dict(
+  text="In a functional model 'same input, same output' is vacuous, so the proved content is independence from hidden state: nvm_serialize writes every byte of its output (same bytes from ANY two initial buffers, writes in bounds), isa_encode never lets unused operand slots / union padding reach the bytes (over the table regenerated from isa.c), string-pool indices depend only on first-insertion order; tied by ser_probe (zero and dirty buffers, junk-filled instruction structs) against the extracted model. The reproducibility claim proper is a configuration SWEEP of the real tools (cwd, TMPDIR, env, setarch -R, MALLOC_PERTURB_, relative/absolute invocation, repeats): byte-identical .nvm, generated C and diagnostics.",
+  note="Only the three independence theorems are proof; byte-identity across configurations is a finite sweep (20 programs x 44 configurations quick) and is reported as such in the evidence. codegen.c, the transpiler, module.c and main.c are not modelled. One open finding: generated C of a program with imports embeds the resolved module path.",
+  technique="Coq proof of three independence theorems + configuration sweep of the real tools", design="DESIGN.md 5/C19"),
+ 'C20': dict(
+  text="The runtime containers behave as sequences: for every operation history over all element kinds the concrete dyn_array machine (growth policy, typed push/pop/get/set, remove_at, clear, reserve, clone, the emitted nl_array_slice, struct blobs) produces exactly the outputs, final contents and assert-stops of the abstract typed-list machine (refinement theorem), with the invariant length <= capacity / block holds capacity cells / cells below length initialised, and no in-domain step touches memory outside the block; gc.c bookkeeping: all-objects list, pointer set and live headers describe the same objects exactly once, release of the last reference frees exactly once.  Model constants and repair flags are MEASURED on the current source on every run; ASan/UBSan probes execute generated histories against the extracted model; generated native programs are built with a sanitizing cc.",
+  note="Domain exclusions are characterised exactly (reserve/clone above the 2^20-cell allocator limit, struct of 0 or >= 2^32 bytes). The GC model has no children/finalizers. nl_string.c, list_int.c, list_string.c and the ARC code the transpiler emits are not modelled (sanitizer runs only). Open findings: INT64_MIN / -1 and % -1, gc_mark on arrays of small inline structs, five HashMap use-after-free patterns.",
+  technique="Coq refinement proof over executable runtime models with measured parameters + sanitizer probes + sanitized native programs", design="DESIGN.md 5/C20"),
 }
 
 REASON_PENDING = "not yet claimed: model and theorems under construction (DESIGN.md section 8 gives the order)"
